@@ -405,6 +405,17 @@ WALK_SOURCES = {
     "include2": ("program p\n  include 'a.inc'\nend program p\n",
                  {"a.inc": "  x = 1\n  include 'b.inc'\n  y = 2\n", "b.inc": "  z1 = 1\n  z2 = 2\n  z3 = 3\n"}, True),
     "include1": ("program p\n  u = 0\n  include 'c.inc'\n  v = 9\nend program p\n", {"c.inc": "  w1 = 1\n  w2 = 2\n"}, True),
+    # the same file twice (also directly after a nested inclusion of it); a file name that holds the other quote character
+    "include_twice": ("subroutine a\n  include 'd.inc'\n  include 'e.inc'\n  include 'd.inc'\nend subroutine a\nsubroutine b\n  include 'd.inc'\nend subroutine b\n",
+                      {"d.inc": "  t1 = 1\n", "e.inc": "  include 'd.inc'\n  t2 = 2\n"}, True),
+    "include_quote": ("program p\n  include \"o'f.inc\"\n  v = 9\nend program p\n", {"o'f.inc": "  q1 = 1\n"}, True),
+}
+# what the reader has to deliver for the sources with INCLUDE lines (statement texts, blanks removed)
+WALK_EXPECT = {
+    "include2": ["programp", "x=1", "z1=1", "z2=2", "z3=3", "y=2", "endprogramp"],
+    "include1": ["programp", "u=0", "w1=1", "w2=2", "v=9", "endprogramp"],
+    "include_twice": ["subroutinea", "t1=1", "t1=1", "t2=2", "t1=1", "endsubroutinea", "subroutineb", "t1=1", "endsubroutineb"],
+    "include_quote": ["programp", "q1=1", "v=9", "endprogramp"],
 }
 
 
@@ -484,6 +495,10 @@ def reader_walks(chk, tier):
     maxops = 8 if tier == "quick" else 12
     cases = []
     for n, st in zip(names, streams):
+        if n in WALK_EXPECT:
+            got = [squeeze(t[1]).lower() for t in st]
+            if got != WALK_EXPECT[n]:
+                chk.violation({"clause": "include-stream-differs", "walks": n}, "C12: the reader delivers %s for source %s, expected %s" % (got, n, WALK_EXPECT[n]), {"name": n})
         cfg = "_ReaderAPI_%s_%s.cfg" % (n, tier)
         with open(os.path.join(common.SPECS, cfg), "w") as f:
             f.write("SPECIFICATION Spec\nCONSTANTS\n  NItems = %d\n  MaxOps = %d\nINVARIANT Sound\nCONSTRAINT Dump\n" % (len(st), maxops))
